@@ -23,7 +23,7 @@ const CALLBACKS: [&str; 5] = ["csvdump", "unspentcsvdump", "balances", "simplest
 
 pub fn run() -> Report {
     let mut rep = Report::new("C02", "e1");
-    let max_t: u64 = if is_thorough() { 7 } else { 4 };
+    let max_t: u64 = if is_thorough() { 10 } else { 6 };
     let mut cases = Vec::new();
     for t in 0..=max_t {
         let mut opts: Vec<(Option<u64>, Option<u64>)> = vec![(None, None)];
@@ -47,6 +47,13 @@ pub fn run() -> Report {
             }
         }
     }
+    // a long chain (more blocks than fit a byte / many buffer flushes of the log): whole and mid ranges, all callbacks
+    let long_n: usize = if is_thorough() { 1000 } else { 300 };
+    for (s, e) in [(None, None), (Some(100u64), Some(260u64)), (Some(255), Some(257)), (None, Some(256))] {
+        for cb in CALLBACKS {
+            cases.push(Case { dirty: false, base: 0, n: long_n, start: s, end: e, cb });
+        }
+    }
     // sparse high-height indexes: records only at H-1..H+3
     let highs: Vec<u64> = if is_thorough() {
         vec![127, 128, 16_511, 16_512, 209_999, 2_113_663, 2_113_664, 1_000_000, 1 << 32]
@@ -64,8 +71,8 @@ pub fn run() -> Report {
             }
         }
     }
-    rep.rule = "every accepted (tip T, --start, --end) combination x 5 callbacks on dense chains (file-producing callbacks also with the leftovers of an aborted whole-chain dump in the dump folder), plus range shapes on sparse indexes at VarInt-width / halving / >32-bit heights; non-trivial = distinct (T, options, callback) whose run delivered at least one block".into();
-    rep.bound = json!({"max_tip": max_t, "callbacks": 5, "cases": cases.len()});
+    rep.rule = "every accepted (tip T, --start, --end) combination x 5 callbacks on dense chains (file-producing callbacks also with the leftovers of an aborted whole-chain dump in the dump folder), a long chain (300 / 1000 blocks) with ranges around height 256, plus range shapes on sparse indexes at VarInt-width / halving / >32-bit heights; non-trivial = distinct (T, options, callback) whose run delivered at least one block".into();
+    rep.bound = json!({"max_tip": max_t, "callbacks": 5, "cases": cases.len(), "long_chain_blocks": long_n});
     let root = refmodel::world::scratch_root();
     let btc = coin("bitcoin");
     let parts = par_fold(
